@@ -164,7 +164,8 @@ theorem ends_only_for_a_reason (cfg : Config) (srv : Server) (e : Event) (id : N
     e = .expire id ∨
     (∃ c r res, e = .req c r ∧ (stepEv cfg srv e).2 = some res ∧ r.method = .teardown ∧
         res.status = 200 ∧ res.err ≠ .fail) ∨
-    (∃ c cn ss, e = .close c ∧ findConn srv c = some cn ∧ cn.sess = some id ∧ findSession srv id = some ss ∧
+    (∃ c cn ss, (e = .close c ∨ e = .frame c ∨ e = .response c) ∧ findConn srv c = some cn ∧ cn.sess = some id ∧
+        findSession srv id = some ss ∧
         (∀ x ∈ ss.conns, x = c) ∧ endsWhenUnused { ss with conns := ss.conns.erase c } = true) ∨
     (∃ c r res cn srv1 ss1, e = .req c r ∧ (stepEv cfg srv e).2 = some res ∧ res.err = .fail ∧
         findConn srv c = some cn ∧ srv1 = (connInner cfg srv cn r).1 ∧ findSession srv1 id = some ss1 ∧
@@ -184,7 +185,27 @@ theorem ends_only_for_a_reason (cfg : Config) (srv : Server) (e : Event) (id : N
     simp only [stepEv] at hgone
     rcases closeConn_ids (c := c) hid with h | ⟨cn, ss, h1, h2, h3, h4, h5⟩
     · exact absurd h hgone
-    · exact ⟨c, cn, ss, rfl, h1, h2, h3, h4, h5⟩
+    · exact ⟨c, cn, ss, Or.inl rfl, h1, h2, h3, h4, h5⟩
+  | frame c =>
+    right; right; left
+    simp only [stepEv, nonRequest] at hgone
+    split at hgone
+    · exact absurd hid hgone
+    · split at hgone
+      · exact absurd hid hgone
+      · rcases closeConn_ids (c := c) hid with h | ⟨cn, ss, h1, h2, h3, h4, h5⟩
+        · exact absurd h hgone
+        · exact ⟨c, cn, ss, Or.inr (Or.inl rfl), h1, h2, h3, h4, h5⟩
+  | response c =>
+    right; right; left
+    simp only [stepEv, nonRequest] at hgone
+    split at hgone
+    · exact absurd hid hgone
+    · split at hgone
+      · exact absurd hid hgone
+      · rcases closeConn_ids (c := c) hid with h | ⟨cn, ss, h1, h2, h3, h4, h5⟩
+        · exact absurd h hgone
+        · exact ⟨c, cn, ss, Or.inr (Or.inr rfl), h1, h2, h3, h4, h5⟩
   | req c r =>
     simp only [stepEv] at hgone ⊢
     cases hf : findConn srv c with
@@ -209,6 +230,9 @@ theorem ends_only_for_a_reason (cfg : Config) (srv : Server) (e : Event) (id : N
         · exact absurd (by simpa using hfail) he
       · rw [if_neg hfail] at hgone
         simp only [hfail]
+        have hsm : sessIds (setMode srv1 cn.id res.err) = sessIds srv1 := by simp [sessIds]
+        rw [show (setMode srv1 cn.id res.err, ({ res with cseq := r.cseq } : Resp)).1 = setMode srv1 cn.id res.err from rfl,
+          hsm] at hgone
         rcases hids with h | ⟨hm, hs, he⟩
         · exact absurd h hgone
         · right; left
